@@ -327,6 +327,60 @@ def _mk(kind, pre=None):
     return cls() if pre is None else cls([c23_val(i) for i in pre])     # pre == "keep" is handled by the caller
 
 
+NFORMS = 14
+
+
+def build_hold(s, keys, objs, form):
+    """a Hold over subery `s` holding objs at keys, the queues handed over in one of the accepted argument forms of
+    Hold(...) / Hold.update(...) / item assignment (one-shot iterables included: each must be injected exactly once)"""
+    from hio.base.hier import Hold
+    pairs = list(zip(keys, objs))
+    ident = [(k, o) for k, o in pairs if k.isidentifier()]
+    rest = [(k, o) for k, o in pairs if not k.isidentifier()]
+    form %= NFORMS
+    if form == 0:
+        hold = Hold(_hold_subery=s)
+        for k, o in pairs:
+            hold[k] = o
+    elif form == 1:
+        hold = Hold(_hold_subery=s)
+        hold.update(dict(pairs))
+    elif form == 2:
+        hold = Hold(_hold_subery=s)
+        hold.update(pairs)
+    elif form == 3:
+        hold = Hold(_hold_subery=s)
+        hold.update(zip(keys, objs))
+    elif form == 4:
+        hold = Hold(_hold_subery=s)
+        hold.update((k, o) for k, o in pairs)
+    elif form == 5:
+        hold = Hold(_hold_subery=s)
+        hold.update(iter(pairs))
+    elif form == 6:
+        hold = Hold(_hold_subery=s)
+        hold.update(**dict(ident))
+        for k, o in rest:
+            hold[k] = o
+    elif form == 7:
+        hold = Hold(_hold_subery=s)
+        hold.update(iter(rest + ident[:1]), **dict(ident[1:]))
+    elif form == 8:
+        hold = Hold(dict(pairs), _hold_subery=s)
+    elif form == 9:
+        hold = Hold(pairs, _hold_subery=s)
+    elif form == 10:
+        hold = Hold(zip(keys, objs), _hold_subery=s)
+    elif form == 11:
+        hold = Hold(((k, o) for k, o in pairs), _hold_subery=s)
+    elif form == 12:
+        hold = Hold(iter(rest), _hold_subery=s, **dict(ident))
+    else:
+        hold = Hold(_hold_subery=s)
+        hold.update({(tuple(k.split("_")) if "_" in k else k): o for k, o in pairs})     # tuple keys are joined with '_'
+    return hold
+
+
 def _observe(kind, s, hold, keys):
     out = []
     sdb = s.drqs if kind == "durq" else s.dsqs
@@ -363,9 +417,8 @@ def c23_run(case):
     for k in keys:
         other.put(k, [_vals()[0], _vals()[1]])
     sentinel = raw_items(s.env, other.sdb)
-    hold = Hold(_hold_subery=s)
-    for k in keys:
-        hold[k] = _mk(kind)
+    form0 = len(ops) + 3 * len(keys)
+    hold = build_hold(s, keys, [_mk(kind) for _ in keys], form0)
     steps = []
     nre = 0
     for op in ops:
@@ -382,14 +435,10 @@ def c23_run(case):
                     _state["subery"] = s
                     if not s.opened:
                         raise core.Infra("Subery.reopen failed")
-                hold = Hold(_hold_subery=s)
                 pres = op[1] if len(op) > 1 else [None] * len(keys)
-                for j, (k, pre) in enumerate(zip(keys, pres)):
-                    obj = old[k] if pre == "keep" else _mk(kind, pre)     # "keep": the same queue object goes into the new Hold
-                    if (nre + j) % 2:
-                        hold[k] = obj
-                    else:
-                        hold.update({k: obj})
+                # "keep": the same queue object goes into the new Hold
+                objs = [old[k] if pre == "keep" else _mk(kind, pre) for k, pre in zip(keys, pres)]
+                hold = build_hold(s, keys, objs, form0 + nre)
                 res = True
             else:
                 q = hold[keys[op[1]]]
